@@ -113,7 +113,11 @@ func genWorkload(r *rand.Rand, index int, budget int) *Workload {
 				}
 				prog = append(prog, SOp{Kind: k, Path: randPattern(r)})
 			case x < delW+hupdW:
-				prog = append(prog, SOp{Kind: "hupd", Slot: r.Intn(2), Val: val})
+				s := r.Intn(2)
+				prog = append(prog, SOp{Kind: "hupd", Slot: s, Val: val})
+				if r.Intn(2) == 0 && len(prog) < per {
+					prog = append(prog, SOp{Kind: "hval", Slot: s})
+				}
 			case x < delW+hupdW+queryW:
 				if r.Intn(3) == 0 {
 					prog = append(prog, SOp{Kind: "walk"})
@@ -139,7 +143,12 @@ func genWorkload(r *rand.Rand, index int, budget int) *Workload {
 				if r.Intn(40) == 0 {
 					min = 0
 				}
-				prog = append(prog, SOp{Kind: "add", Path: randPath(r, min, maxDepth), Val: val})
+				p := randPath(r, min, maxDepth)
+				prog = append(prog, SOp{Kind: "add", Path: p, Val: val})
+				// reading back what was just written keeps the order of overlapping writes observable
+				if r.Intn(2) == 0 && len(prog) < per {
+					prog = append(prog, SOp{Kind: "glv", Path: p})
+				}
 			}
 		}
 		w.Progs = append(w.Progs, prog)
